@@ -118,7 +118,12 @@ package sm
 //@   ensures [C11] identity_from_settings: fresh(lastsent(c)) ==> identified(lastsent(c), sm.cfg)
 //@   ensures [C11 C16] request_ids_mirrored: fresh(lastsent(c)) ==> mirrors(lastsent(c), m)
 //@   ensures [C16] error_answer_flags: fresh(lastsent(c)) ==> lastsent(c).Header.CommandFlags == (m.Header.CommandFlags &^ 0x80) | 0x20
+//@   # C11 "every CEA carries the configured host addresses (or, when none are configured, an address of the connection's
+//@   # local endpoint)": the local endpoint is consulted only when nothing is configured, and the list the Host-IP-Address
+//@   # AVPs are built from is the configured one whenever there is one
+//@   atcall getLocalAddresses: [C11] the_local_endpoint_only_when_nothing_is_configured: len(sm.cfg.HostIPAddresses) == 0
 //@   loop 0
+//@     invariant [C11] configured_addresses_are_the_ones_carried: len(sm.cfg.HostIPAddresses) > 0 ==> sameslice(hostAddresses, sm.cfg.HostIPAddresses)
 //@     invariant 0 - 1 <= rangeindex && rangeindex < len(hostAddresses)
 //@     invariant own1: a != nil && fresh(a) && a.Header != nil && fresh(a.Header)
 //@     invariant own2: a.dictionary == mdict(m)
@@ -145,7 +150,12 @@ package sm
 //@   ensures [C11] identity_from_settings: fresh(lastsent(c)) ==> identified(lastsent(c), sm.cfg)
 //@   ensures [C11 C16] request_ids_mirrored: fresh(lastsent(c)) ==> mirrors(lastsent(c), m)
 //@   ensures [C16] answer_flags: fresh(lastsent(c)) ==> lastsent(c).Header.CommandFlags == m.Header.CommandFlags &^ 0x80
+//@   # C11 "every CEA carries the configured host addresses (or, when none are configured, an address of the connection's
+//@   # local endpoint)": the local endpoint is consulted only when nothing is configured, and the list the Host-IP-Address
+//@   # AVPs are built from is the configured one whenever there is one
+//@   atcall getLocalAddresses: [C11] the_local_endpoint_only_when_nothing_is_configured: len(sm.cfg.HostIPAddresses) == 0
 //@   loop 0
+//@     invariant [C11] configured_addresses_are_the_ones_carried: len(sm.cfg.HostIPAddresses) > 0 ==> sameslice(hostAddresses, sm.cfg.HostIPAddresses)
 //@     invariant 0 - 1 <= rangeindex && rangeindex < len(hostAddresses)
 //@     invariant apps_listed: forall i int :: 0 <= i && i < len(sm.supportedApps) ==> sm.supportedApps[i] != nil
 //@     invariant own1: a != nil && fresh(a) && a.Header != nil && fresh(a.Header)
